@@ -125,10 +125,12 @@ def tupleOf : PyVal → Option (List Atom)
   | .atom _ => none
 
 /-- Values outside the model's domain: an ndarray (or `bytes`) handed to a *list* attribute class
-    iterates over numpy scalars / sub-arrays / byte values, which `Atom` does not describe. -/
+    iterates over numpy scalars / sub-arrays / byte values, which `Atom` does not describe; a spox
+    `Type` handed to `AttrDtype` goes through numpy's dtype-like protocol. -/
 def inDomain (c : Cls) (v : PyVal) : Bool :=
   match v with
   | .atom (.ndarray _) | .atom .badarray | .atom .sequence | .atom (.bytes _) => !iterable c
+  | .atom .typ => c != .dtype     -- numpy takes any object with a `.dtype` attribute (a spox Tensor!) as dtype-like
   | _ => true
 
 /-- The stored `_value` and the `AttributeProto`, or the class of the exception. -/
